@@ -1,6 +1,7 @@
 package main
 
 import (
+	"math/big"
 	"fmt"
 	"go/ast"
 	"os"
@@ -345,6 +346,9 @@ func axiomsFor(c *Ctx, env *linEnv, fn *ssa.Function, at ssa.Instruction) (facts
 				if gb := bufParam(cal); gb != nil {
 					for i, p := range cal.Params {
 						if p == gb && i < len(x.Call.Args) {
+							if lowerPost[ssaKey(cal)] && i+1 < len(x.Call.Args) {
+								facts = append(facts, Fact{env.norm(x.Call.Args[i+1]).add(Lin{T: map[string]int64{k: 1}}, -1), cal.Name() + "() offset >= its start offset (rule O3)"})
+							}
 							facts = append(facts, Fact{Lin{T: map[string]int64{k: 1}}.add(env.lenLin(x.Call.Args[i]), -1), cal.Name() + "() offset <= len(buf) (rule O1)"})
 						}
 					}
@@ -377,6 +381,10 @@ func axiomsFor(c *Ctx, env *linEnv, fn *ssa.Function, at ssa.Instruction) (facts
 							if p == gb && i < len(call.Call.Args) {
 								ln := env.lenLin(call.Call.Args[i])
 								facts = append(facts, Fact{Lin{T: map[string]int64{k: 1}}.add(ln, -1), cal.Name() + "() offset <= len(buf) (rule O1)"})
+								// lower postcondition: the result is not before the offset passed in (rule O3)
+								if lowerPost[ssaKey(cal)] && i+1 < len(call.Call.Args) {
+									facts = append(facts, Fact{env.norm(call.Call.Args[i+1]).add(Lin{T: map[string]int64{k: 1}}, -1), cal.Name() + "() offset >= its start offset (rule O3)"})
+								}
 								// verdict-conditional postcondition: Ok => offset < len(buf)
 								if okStrictPost[ssaKey(cal)] && at != nil && dominatedByOkOf(call, at) {
 									facts = append(facts, Fact{Lin{T: map[string]int64{k: 1}}.add(ln, -1).add(linConst(1), 1), cal.Name() + "() == Ok => offset < len(buf) (rule O1)"})
@@ -420,6 +428,17 @@ func proveH(c *Ctx, fn *ssa.Function, ins ssa.Instruction, goal func(env *linEnv
 			return proofResult{how: tag + " " + env.pretty(g) + "<=0 [" + why + "]", ok: true}
 		}
 		ax, assumed := axiomsFor(c, env, fn, ins)
+		// auxiliary loop invariants of this function (proved once by induction): offs <= index <= len(buf)
+		if !inInvariantSearch {
+			for _, inv := range loopInvariants(c, fn) {
+				if inv.phi.Block().Dominates(ins.Block()) {
+					ax = append(ax, Fact{inv.goal(env), inv.src})
+					if inv.assumed != "" {
+						assumed[inv.src] = true
+					}
+				}
+			}
+		}
 		if len(ax) > 0 {
 			if ok, why := entails(append(facts, ax...), g); ok {
 				as := ""
@@ -488,7 +507,7 @@ func proveByCases(c *Ctx, fn *ssa.Function, ins ssa.Instruction, goal func(env *
 			_ = e
 			r := proveH(c, fn, last, sub, nh, depth+1)
 			if !r.ok {
-				if os.Getenv("SA_DEBUG") != "" {
+				if d := os.Getenv("SA_DEBUG"); d != "" && (d == "1" || d == fn.Name()) {
 					fmt.Fprintf(os.Stderr, "DEBUG depth=%d cases on %s: edge %d (%s) from block %d fails: %s\n", depth, srcName(phi), i, srcName(e), pred.Index, r.how)
 				}
 				allOK = false
@@ -969,6 +988,7 @@ func ruleO1(c *Ctx) {
 	var results map[string][]retRes
 	converged := false
 	for iter := 0; iter < 10; iter++ {
+		loopInvCache = map[*ssa.Function][]loopInv{}
 		results = map[string][]retRes{}
 		changed := false
 		for _, f := range fns {
@@ -1395,4 +1415,273 @@ func sameAddr(a, b ssa.Value) bool {
 	fa, ok1 := a.(*ssa.FieldAddr)
 	fb, ok2 := b.(*ssa.FieldAddr)
 	return ok1 && ok2 && fa.Field == fb.Field && sameAddr(fa.X, fb.X)
+}
+
+// lowerPost: functions whose every non-error return is >= the offset passed in (rule O3).
+var lowerPost = map[string]bool{}
+
+// ruleO3: a returned offset is never before the offset passed in, unless the verdict is an error
+// (whose offset may point back at the offending text).
+func ruleO3(c *Ctx) {
+	curEffects = computeEffects(c.Prog)
+	if len(offsetPost) == 0 {
+		t := &Ctx{Prog: c.Prog, Prop: c.Prop}
+		ruleO1(t)
+	}
+	e := newErrAnalysis(c.Prog)
+	fns := offsetFuncs(c)
+	lowerPost = map[string]bool{}
+	for _, f := range fns {
+		lowerPost[ssaKey(f)] = true
+	}
+	nonErr := VSet(0x1f) // Ok, EOH, Empty, MoreBytes, MoreValues
+	type res struct {
+		key string
+		pos token.Pos
+		r   proofResult
+	}
+	var results map[string][]res
+	converged := false
+	rootFail := map[string]bool{}
+	for iter := 0; iter < 10; iter++ {
+		results = map[string][]res{}
+		changed := false
+		loopInvCache = map[*ssa.Function][]loopInv{} // invariants depend on the current postcondition set
+		for _, f := range fns {
+			fk := ssaKey(f)
+			ei := errResultIndex(f)
+			var offsP *ssa.Parameter
+			for i, p := range f.Params {
+				if p == bufParam(f) && i+1 < len(f.Params) {
+					offsP = f.Params[i+1]
+				}
+			}
+			all := true
+			cnt := map[string]int{}
+			for _, b := range f.Blocks {
+				ret, ok := b.Instrs[len(b.Instrs)-1].(*ssa.Return)
+				if !ok {
+					continue
+				}
+				if ei >= 0 && e.at(ret.Results[ei], b)&nonErr == 0 {
+					continue // error verdicts only: the offset may point back
+				}
+				v := ret.Results[0]
+				le := newLinEnv(linOpts{})
+				base := fk + ":return " + le.pretty(le.norm(v))
+				cnt[base]++
+				key := base
+				if cnt[base] > 1 {
+					key += "#" + itoa(cnt[base])
+				}
+				var r proofResult
+				lbUsedPre, lbUsedCell = false, false
+				if lbOffs(v, f, offsP, map[ssa.Value]bool{}) {
+					r = proofResult{ok: true, how: "O3s " + le.pretty(le.norm(v)) + " is built from " + offsP.Name() + " by non-negative steps and callee results that are >= their start offset"}
+					if lbUsedPre {
+						r.assumed = "API precondition " + offsP.Name() + " <= len(buf)"
+					}
+					if lbUsedCell {
+						r.assumed = strings.TrimPrefix(r.assumed+"; Content-Length <= 2^24 (C10 rule R)", "; ")
+					}
+				} else {
+					r = prove(c, f, ret, func(env *linEnv) Lin { return env.norm(offsP).add(env.norm(v), -1) })
+				}
+				if !r.ok {
+					all = false
+					if iter == 0 {
+						rootFail[key] = true
+					}
+					if os.Getenv("SA_DEBUG_O3") != "" {
+						fmt.Fprintf(os.Stderr, "O3 iter %d fail %s: %s\n", iter, key, r.how)
+					}
+				}
+				results[fk] = append(results[fk], res{key, ret.Pos(), r})
+			}
+			if !all && lowerPost[fk] {
+				lowerPost[fk] = false
+				changed = true
+			}
+		}
+		if !changed {
+			converged = true
+			break
+		}
+	}
+	c.check(converged, "O3", "fixpoint", token.NoPos, "postcondition fixpoint converged")
+	n := 0
+	for _, f := range fns {
+		for _, rr := range results[ssaKey(f)] {
+			n++
+			switch {
+			case rr.r.ok && rr.r.assumed != "":
+				c.assumed("O3", rr.key, rr.pos, rr.r.how+" — relies on: "+rr.r.assumed)
+			case rr.r.ok:
+				c.ok("O3", rr.key, rr.pos, rr.r.how)
+			case !rootFail[rr.key]:
+				c.fail("O3", rr.key, rr.pos, "consequence of a callee losing its offset>=start postcondition (see the other O3 reports): "+rr.r.how)
+			default:
+				c.fail("O3", rr.key, rr.pos, "ROOT: a non-error return may carry an offset before the one passed in: "+rr.r.how)
+			}
+		}
+	}
+	c.check(n >= 60, "O3", "return-count", token.NoPos, fmt.Sprintf("%d non-error offset returns analysed (frozen minimum 60)", n))
+}
+
+// lbOffs: v >= offsP on every execution, established structurally (greatest fixpoint over the SSA definitions:
+// every member is defined from members by steps that cannot decrease it). in[] holds the phis assumed on the
+// way (coinduction over loop-carried values).
+var lbUsedPre, lbUsedCell bool
+
+func lbOffs(v ssa.Value, fn *ssa.Function, offsP *ssa.Parameter, in map[ssa.Value]bool) bool {
+	if offsP == nil {
+		return false
+	}
+	if v == ssa.Value(offsP) {
+		return true
+	}
+	if in[v] {
+		return true
+	}
+	if os.Getenv("SA_DEBUG_LB") == fn.Name() {
+		defer func() { fmt.Fprintf(os.Stderr, "LB %s = %T %s\n", v.Name(), v, v.String()) }()
+	}
+	nonNeg := func(y ssa.Value, at *ssa.BasicBlock) bool {
+		if k, ok := y.(*ssa.Const); ok && k.Value != nil {
+			n, ok := constant.Int64Val(constant.ToInt(k.Value))
+			return ok && n >= 0
+		}
+		env := newRangeEnv(fn)
+		lo, hi := env.rng(y, at)
+		if lo == nil || lo.Sign() < 0 {
+			// Content-Length cell: clamped to 2^24 by its only writers (C10 rule R), so int(cell) cannot be negative even in 32 bits
+			env = newRangeEnv(fn)
+			env.cellHi = map[string]*big.Int{"PV.CLen.UIVal": bigOf(1 << 24)}
+			lo, hi = env.rng(y, at)
+			if lo != nil && lo.Sign() >= 0 {
+				lbUsedCell = true
+			}
+		}
+		if os.Getenv("SA_DEBUG_LB") == fn.Name() {
+			fmt.Fprintf(os.Stderr, "LB nonneg %s: %v %v\n", y.Name(), lo, hi)
+		}
+		return lo != nil && lo.Sign() >= 0
+	}
+	calleeLB := func(call *ssa.Call) bool {
+		cal := call.Call.StaticCallee()
+		if cal == nil || !lowerPost[ssaKey(cal)] {
+			return false
+		}
+		gb := bufParam(cal)
+		for i, p := range cal.Params {
+			if p == gb && i+1 < len(call.Call.Args) {
+				return lbOffs(call.Call.Args[i+1], fn, offsP, in)
+			}
+		}
+		return false
+	}
+	if bp := bufParam(fn); bp != nil {
+		// len(buf) >= offs is the API precondition (the same one rule O1 relies on)
+		if call, ok := v.(*ssa.Call); ok {
+			if b, ok := call.Call.Value.(*ssa.Builtin); ok && b.Name() == "len" && len(call.Call.Args) == 1 && call.Call.Args[0] == ssa.Value(bp) {
+				lbUsedPre = true
+				return true
+			}
+		}
+	}
+	switch x := v.(type) {
+	case *ssa.Phi:
+		in[x] = true
+		for _, e := range x.Edges {
+			if !lbOffs(e, fn, offsP, in) {
+				delete(in, x)
+				return false
+			}
+		}
+		return true
+	case *ssa.BinOp:
+		if x.Op == token.ADD {
+			if lbOffs(x.X, fn, offsP, in) && nonNeg(x.Y, x.Block()) {
+				return true
+			}
+			if lbOffs(x.Y, fn, offsP, in) && nonNeg(x.X, x.Block()) {
+				return true
+			}
+		}
+	case *ssa.Extract:
+		if call, ok := x.Tuple.(*ssa.Call); ok && x.Index == 0 {
+			return calleeLB(call)
+		}
+	case *ssa.Call:
+		if x.Call.Signature().Results().Len() == 1 {
+			return calleeLB(x)
+		}
+	}
+	return false
+}
+
+// loop invariants: for every integer loop-head phi, "offs <= phi" and "phi <= len(buf)" when provable by
+// induction on their own; they are then available as facts wherever the phi dominates.
+type loopInv struct {
+	phi     *ssa.Phi
+	goal    func(env *linEnv) Lin
+	src     string
+	assumed string
+}
+
+var loopInvCache = map[*ssa.Function][]loopInv{}
+var inInvariantSearch bool
+
+func loopInvariants(c *Ctx, fn *ssa.Function) []loopInv {
+	if v, ok := loopInvCache[fn]; ok {
+		return v
+	}
+	loopInvCache[fn] = nil
+	bp := bufParam(fn)
+	if bp == nil {
+		return nil
+	}
+	var offsP *ssa.Parameter
+	for i, p := range fn.Params {
+		if p == bp && i+1 < len(fn.Params) && isIntType(fn.Params[i+1].Type()) {
+			offsP = fn.Params[i+1]
+		}
+	}
+	inInvariantSearch = true
+	defer func() { inInvariantSearch = false }()
+	var out []loopInv
+	for _, b := range fn.Blocks {
+		isHead := false
+		for _, p := range b.Preds {
+			if b.Dominates(p) {
+				isHead = true
+			}
+		}
+		if !isHead {
+			continue
+		}
+		for _, ins := range b.Instrs {
+			ph, ok := ins.(*ssa.Phi)
+			if !ok {
+				break
+			}
+			if !isIntType(ph.Type()) || !isPositionLocal(ph) {
+				continue
+			}
+			last := b.Instrs[len(b.Instrs)-1]
+			phv := ph
+			if offsP != nil {
+				g := func(env *linEnv) Lin { return env.norm(offsP).add(env.norm(phv), -1) }
+				if r := proveH(c, fn, last, g, nil, 0); r.ok {
+					out = append(out, loopInv{phv, g, "loop invariant " + offsP.Name() + " <= " + phv.Comment, r.assumed})
+				}
+			}
+			g2 := func(env *linEnv) Lin { return env.norm(phv).add(env.lenLin(bp), -1) }
+			if r := proveH(c, fn, last, g2, nil, 0); r.ok {
+				out = append(out, loopInv{phv, g2, "loop invariant " + phv.Comment + " <= len(" + bp.Name() + ")", r.assumed})
+			}
+		}
+	}
+	loopInvCache[fn] = out
+	return out
 }
